@@ -631,7 +631,7 @@ def commands(kind, active_only=False, falsy_error=False):
     ops = ["next"] * 8 + ["sub"] * 5 + ["unsub"] * 2
     if kind == "replay":
         ops = ops + ["adv"] * 6
-    ops = ops * 4
+    ops = ops * 2
     if not active_only:
         ops = ops + ["error"] * 2 + ["completed"] * (4 if kind == "async" else 2) + ["dispose"]
         if falsy_error:
